@@ -566,7 +566,13 @@ func (e *env) fillCSV(cs *csvCase) {
 }
 
 // readerView: the record list encoding/csv produces for the file (the model's parameter).
+// bomFirst: the current source strips a UTF-8 BOM before tokenising (fact regenerated by factgen).
+var bomFirst bool
+
 func readerView(data []byte, delim rune) ([][]string, error) {
+	if bomFirst && len(data) >= 3 && data[0] == 0xEF && data[1] == 0xBB && data[2] == 0xBF {
+		data = data[3:]
+	}
 	rd := csv.NewReader(bytes.NewReader(data))
 	rd.FieldsPerRecord = -1
 	rd.LazyQuotes = true
